@@ -447,3 +447,26 @@ def degree_in(e: ast.AST, sym: str, defs: dict, depth: int = 0) -> Optional[int]
         ds = {degree_in(x, sym, defs, depth + 1) for x in e.elts}
         return ds.pop() if len(ds) == 1 else None
     return None
+
+
+def defaulted_param_aliases(fn: FuncInfo) -> dict:
+    """local -> parameter for the idiom `x = p` followed only by `if x is None: x = <constant>` re-bindings: x is the
+    parameter with its default filled in."""
+    params = set(fn.params)
+    assigns: dict = {}
+    for n in walk_no_nested(fn.node):
+        if isinstance(n, ast.Assign) and len(n.targets) == 1 and isinstance(n.targets[0], ast.Name):
+            assigns.setdefault(n.targets[0].id, []).append(n.value)
+        elif isinstance(n, (ast.AugAssign, ast.For)):
+            for x in ast.walk(n.target):
+                if isinstance(x, ast.Name):
+                    assigns.setdefault(x.id, []).append(None)
+    out = {}
+    for name, vals in assigns.items():
+        if name in params or None in vals:
+            continue
+        src = [v for v in vals if isinstance(v, ast.Name) and v.id in params]
+        rest = [v for v in vals if not (isinstance(v, ast.Name) and v.id in params)]
+        if len(src) == 1 and all(isinstance(v, ast.Constant) for v in rest):
+            out[name] = src[0].id
+    return out
